@@ -155,7 +155,8 @@ func (e *env) attachGen(rng *rand.Rand, p *program) {
 var directedVariants = []string{"delegateV2", "undelegateV2", "redelegateV2", "withdraw", "approveShares", "transferShares", "transferFromShares",
 	"crossChain/origin", "crossChain/wfx", "crossChain/tst", "crossChain/hook-token", "cancelSendToExternal", "increaseBridgeFee/origin",
 	"increaseBridgeFee/wfx", "bridgeCall/value", "bridgeCall/no-value", "bridgeCall/no-value+wfx", "bridgeCall/no-value+tst", "bridgeCall/no-value+wfx+tst",
-	"bridgeCall/value+tst", "executeClaim", "delegationRewards",
+	"bridgeCall/value+tst", "executeClaim", "delegationRewards", "delegation", "allowanceShares", "slashingInfo", "validatorList", "bridgeCoinAmount",
+	"hasOracle", "isOracleOnline",
 	"transferFromShares/late-insufficient-shares", "crossChain/wfx/late-bad-receipt", "crossChain/tst/late-bad-receipt", "crossChain/origin/late-bad-receipt",
 	"crossChain/hook-token/late-bad-receipt", "bridgeCall/no-value+tst/late-token-fails", "bridgeCall/no-value+wfx+tst/late-token-fails",
 	"transferFromShares/keeper-rejects", "increaseBridgeFee/wfx:fail"}
@@ -284,7 +285,8 @@ func (e *env) directed(rng *rand.Rand) []*program {
 
 var preMethods = []string{"delegateV2", "delegateV2", "undelegateV2", "redelegateV2", "withdraw", "approveShares", "approveShares",
 	"transferShares", "transferFromShares", "transferFromShares", "crossChain", "crossChain", "crossChain", "cancelSendToExternal", "cancelSendToExternal",
-	"increaseBridgeFee", "increaseBridgeFee", "bridgeCall", "bridgeCall", "bridgeCall", "executeClaim", "executeClaim", "delegation", "hasOracle", "delegationRewards", "delegationRewards"}
+	"increaseBridgeFee", "increaseBridgeFee", "bridgeCall", "bridgeCall", "bridgeCall", "executeClaim", "executeClaim", "delegation", "hasOracle", "delegationRewards", "delegationRewards",
+	"allowanceShares", "slashingInfo", "validatorList", "bridgeCoinAmount", "isOracleOnline"}
 
 // genPre fills a precompile call: method, calldata, kind, value, intended outcome.
 func (e *env) genPre(rng *rand.Rand, p *program, nd *evmx.Node, ctx common.Address, static bool) *meta {
@@ -357,6 +359,33 @@ func (e *env) genPre(rng *rand.Rand, p *program, nd *evmx.Node, ctx common.Addre
 		data, err = sabi.Pack(m, val, from, e.sink, amt(10))
 	case "delegation", "delegationRewards":
 		data, err = sabi.Pack(m, val, ctx)
+	case "allowanceShares":
+		data, err = sabi.Pack(m, val, e.owner.Address(), ctx)
+	case "slashingInfo":
+		data, err = sabi.Pack(m, val)
+	case "validatorList":
+		sortBy := uint8(rng.Intn(2))
+		if mode == "fail" {
+			sortBy = 9
+		}
+		data, err = sabi.Pack(m, sortBy)
+	case "bridgeCoinAmount":
+		nd.To = e.cross
+		tok := common.Address{}
+		if len(tokens) > 0 {
+			tok = hx.Pick(rng, tokens)
+		}
+		if mode == "fail" {
+			tok = helpers.GenHexAddress() // not a registered token
+		}
+		data, err = cabi.Pack(m, tok, fxtypes.MustStrToByte32(ethtypes.ModuleName))
+	case "isOracleOnline":
+		nd.To = e.cross
+		chain := ethtypes.ModuleName
+		if mode == "fail" {
+			chain = "nochain"
+		}
+		data, err = cabi.Pack(m, chain, helpers.GenHexAddress())
 	case "crossChain":
 		nd.To = e.cross
 		a, f := big.NewInt(int64(1000+nd.ID)), big.NewInt(int64(10+nd.ID))
